@@ -157,6 +157,31 @@ private:
 	char mBuf[64];
 };
 
+// Output stream buffer that starts to fail (overflow returns EOF) or throw when byte number `failAt` is written
+class FailingOutBuf : public std::streambuf
+{
+public:
+	FailingOutBuf(size_t failAt, bool doThrow) : mFailAt(failAt), mThrow(doThrow) { data.reserve(1 << 20); }
+	std::string data;
+	size_t failHits = 0;
+protected:
+	int_type overflow(int_type ch) override
+	{
+		if (data.size() >= mFailAt) { ++failHits; if (mThrow) throw std::ios_base::failure("scripted output failure"); return traits_type::eof(); }
+		data.push_back(static_cast<char>(ch));
+		return ch;
+	}
+	std::streamsize xsputn(const char* s, std::streamsize n) override
+	{
+		std::streamsize i = 0;
+		for (; i < n; ++i) if (overflow(traits_type::to_int_type(s[i])) == traits_type::eof()) break;
+		return i;
+	}
+private:
+	size_t mFailAt;
+	bool mThrow;
+};
+
 struct StreamHolder
 {
 	std::unique_ptr<std::streambuf> buf;
